@@ -13,8 +13,11 @@ Domain hypotheses and why they are there
 * `a.seq ≠ []` for shift / shuffle (ZeroDivisionError / ValueError on the empty sequence — modelled).
 * `a.internal ≠ some []` in the *identity* laws: `{}` is normalised to `None` by reverse / shift (not observable through
   the API, `==` treats both alike).
-* `a.intervals = none` in the shift identities: FALSE with intervals on the current code (known finding
-  KF-C11-shift-intervals, `shift_identity_full_false_on_current_code`).
+* `IntervalsOK a` (intervals non-empty and inside the sequence) and `a.intervals ≠ some []` (`[]` is normalised to `None`) in
+  the shift identities; `NoWrap a k` (no interval has the rotation point strictly inside) for shift k then -k and for the
+  cover law of shift: an interval that wraps around after the rotation cannot be written as one (start, end) pair and is
+  replaced by a different interval — known finding KF-C11-shift-interval-wraparound,
+  `shift_wraparound_false_on_current_code`. Shifting by a multiple of the length never wraps.
 * `perm.Perm (List.range n)`: the permutation argument of `shuffle` is the outcome of `random.shuffle` on the positions.
 -/
 namespace Pept.Reorder.C11
@@ -126,11 +129,11 @@ theorem shift_residues_rotate (a : Annotation) (k : Int) (hn : a.seq ≠ []) (hk
       Nat.mod_eq_of_lt (by omega)
     simp [this]
 
-/-- FULL STATEMENT (false on the current code when intervals are present, see `shift_identity_full_false_on_current_code`):
-    `∀ a k, a.seq ≠ [] → KeysOK a → a.internal ≠ some [] → ∃ b, shift a k = .ok b ∧ shift b (-k) = .ok a`.
-PARTIAL: it holds for every annotation without intervals. -/
+/-- FULL STATEMENT (false on the current code for an interval that wraps, see `shift_wraparound_false_on_current_code`):
+    `∀ a k, a.seq ≠ [] → KeysOK a → IntervalsOK a → … → ∃ b, shift a k = .ok b ∧ shift b (-k) = .ok a`.
+PARTIAL, exact hypothesis: no interval wraps at the intermediate step (`NoWrap a k`, decidable for concrete inputs). -/
 theorem shift_shift_neg_partial (a : Annotation) (k : Int) (hn : a.seq ≠ []) (hk : KeysOK a)
-    (hint : a.internal ≠ some []) (hiv : a.intervals = none) :
+    (hint : a.internal ≠ some []) (hivne : a.intervals ≠ some []) (hwf : IntervalsOK a) (hnw : NoWrap a k) :
     ∃ b, shift a k = .ok b ∧ shift b (-k) = .ok a := by
   obtain ⟨b, hb, hseq, hbint, hbiv, g1, g2, g3, g4, g5, g6, g7, g8⟩ := shift_spec a k hn hk
   refine ⟨b, hb, ?_⟩
@@ -139,6 +142,7 @@ theorem shift_shift_neg_partial (a : Annotation) (k : Int) (hn : a.seq ≠ []) (
   have he0 : 0 ≤ k % (a.seq.length : Int) := Int.emod_nonneg _ hn0
   have he : k % (a.seq.length : Int) < a.seq.length := Int.emod_lt_of_pos _ (by omega)
   have hneg := neg_emod_range k a.seq.length (by omega)
+  have hnw' : ∀ L, a.intervals = some L → ∀ iv ∈ L, ¬ wraps (k % (a.seq.length : Int)) iv := hnw
   generalize hE : k % (a.seq.length : Int) = eff at *
   obtain ⟨e, rfl⟩ := Int.eq_ofNat_of_zero_le he0
   simp only [Int.toNat_natCast] at hseq
@@ -196,16 +200,29 @@ theorem shift_shift_neg_partial (a : Annotation) (k : Int) (hn : a.seq ≠ []) (
         rw [shiftEntry_inverse e _ _ he0 he rfl p (hr p (by simp))]
         congr 2
         exact map_eq_self _ t (fun q hq => shiftEntry_inverse e _ _ he0 he rfl q (hr q (by simp [hq])))
-  · rw [hciv, hbiv, hiv]
+  · rw [hciv, hbiv]
+    cases hL : a.intervals with
+    | none => rfl
+    | some L =>
+      cases L with
+      | nil => exact absurd hL hivne
+      | cons iv t =>
+        simp only [List.map_cons, List.map_map]
+        rw [shiftInterval_inverse e _ _ iv he0 he rfl (hwf _ hL iv (by simp)) (hnw' _ hL iv (by simp))]
+        congr 2
+        exact map_eq_self _ t (fun q hq => shiftInterval_inverse e _ _ q he0 he rfl (hwf _ hL q (by simp [hq]))
+          (hnw' _ hL q (by simp [hq])))
   · rw [c5, g5]
   · rw [c6, g6]
-example : demoNoIv.seq ≠ [] ∧ KeysOK demoNoIv ∧ demoNoIv.internal ≠ some [] ∧ demoNoIv.intervals = none :=
-  ⟨by decide, demoNoIv_keysOK, by decide, rfl⟩
+example : demo.seq ≠ [] ∧ KeysOK demo ∧ demo.internal ≠ some [] ∧ demo.intervals ≠ some [] ∧ IntervalsOK demo ∧ NoWrap demo 3 :=
+  ⟨by decide, demo_keysOK, by decide, by decide, demo_intervalsOK, demo_noWrap_3⟩
+example : ((shift demo 3).toOption.bind fun b => (shift b (-3)).toOption) = some demo := by decide
 
-/-- FULL STATEMENT (false with intervals, same witness): shifting by a multiple of the length is the identity.
-PARTIAL: without intervals. -/
-theorem shift_multiple_partial (a : Annotation) (k : Int) (hn : a.seq ≠ []) (hk : KeysOK a)
-    (hint : a.internal ≠ some []) (hiv : a.intervals = none) (hmul : k % (a.seq.length : Int) = 0) :
+/-- shifting by a multiple of the length is the identity, intervals included (full statement after fix 918a950; before it an
+interval ending at the last residue was moved to the front even by `shift(0)`) -/
+theorem shift_multiple (a : Annotation) (k : Int) (hn : a.seq ≠ []) (hk : KeysOK a)
+    (hint : a.internal ≠ some []) (hivne : a.intervals ≠ some []) (hwf : IntervalsOK a)
+    (hmul : k % (a.seq.length : Int) = 0) :
     shift a k = .ok a := by
   obtain ⟨b, hb, hseq, hbint, hbiv, g1, g2, g3, g4, g5, g6, g7, g8⟩ := shift_spec a k hn hk
   rw [hb]
@@ -232,14 +249,25 @@ theorem shift_multiple_partial (a : Annotation) (k : Int) (hn : a.seq ≠ []) (h
         · simp only [Int.sub_zero]
           exact Int.emod_eq_of_lt h1.1 h1.2
         · rfl
-  · rw [hbiv, hiv]
+  · rw [hbiv]
+    cases hL : a.intervals with
+    | none => rfl
+    | some L =>
+      cases L with
+      | nil => exact absurd hL hivne
+      | cons iv t =>
+        simp only
+        congr 1
+        exact map_eq_self _ _ (fun q hq => shiftInterval_zero _ q (by omega) (hwf _ hL q hq))
 
-theorem shift_length_partial (a : Annotation) (hn : a.seq ≠ []) (hk : KeysOK a)
-    (hint : a.internal ≠ some []) (hiv : a.intervals = none) : shift a a.seq.length = .ok a :=
-  shift_multiple_partial a _ hn hk hint hiv Int.emod_self
+theorem shift_length (a : Annotation) (hn : a.seq ≠ []) (hk : KeysOK a)
+    (hint : a.internal ≠ some []) (hivne : a.intervals ≠ some []) (hwf : IntervalsOK a) :
+    shift a a.seq.length = .ok a :=
+  shift_multiple a _ hn hk hint hivne hwf Int.emod_self
 
 
-example : (shift demoNoIv 7).toOption = some demoNoIv ∧ (shift demoNoIv (-14)).toOption = some demoNoIv := by decide
+example : (shift demo 7).toOption = some demo ∧ (shift demo (-14)).toOption = some demo ∧ (shift demo 0).toOption = some demo := by
+  decide
 
 /-- shuffle: the residue at new position `i` is the residue `perm[i]` of the input with its own modifications; the result
 is a permutation of the modified residues; global, terminal and interval annotations are untouched -/
@@ -310,13 +338,55 @@ example : (reverse demo false).intervals = some [⟨2, 4, true, none⟩, ⟨4, 6
 def shiftWitness : Annotation :=
   { seq := ['P', 'E', 'P', 'T', 'I', 'D', 'E'], intervals := some [⟨5, 7, false, some [⟨.int 1, 1⟩]⟩] }
 
-/-- the un-restricted identities are FALSE on the current code when intervals are present (KF-C11-shift-intervals):
-`PEPTI(DE)[1]` shifted by 0 or by its length 7 is `(PEPTI)[1]DE` -/
-theorem shift_identity_full_false_on_current_code :
-    (shift shiftWitness 0).toOption ≠ some shiftWitness ∧ (shift shiftWitness 7).toOption ≠ some shiftWitness ∧
-    (shift shiftWitness 0).toOption.map (·.intervals) = some (some [⟨0, 5, false, some [⟨.int 1, 1⟩]⟩]) := by
+/-- the witness of the repaired defect KF-C11-shift-intervals: `PEPTI(DE)[1]` shifted by 0 or by its length 7 is unchanged
+(it was `(PEPTI)[1]DE`), shifted by 2 it is `PTI(DE)[1]PE` -/
+example : (shift shiftWitness 0).toOption = some shiftWitness ∧ (shift shiftWitness 7).toOption = some shiftWitness ∧
+    (shift shiftWitness 2).toOption.map (·.intervals) = some (some [⟨3, 5, false, some [⟨.int 1, 1⟩]⟩]) := by decide
+
+/-- `(PE)[1]P` -/
+def wrapWitness : Annotation :=
+  { seq := ['P', 'E', 'P'], intervals := some [⟨0, 2, false, some [⟨.int 1, 1⟩]⟩] }
+
+/-- the un-restricted statements are FALSE on the current code for an interval that wraps (KF-C11-shift-interval-wraparound):
+`(PE)[1]P` shifted by 1 is `EPP` whose interval should cover positions 2 and 0; the code writes `E(P)[1]P` (position 1
+only), and shifting back by -1 gives `PE(P)[1]` instead of `(PE)[1]P` -/
+theorem shift_wraparound_false_on_current_code :
+    wraps (1 % 3) ⟨0, 2, false, some [⟨.int 1, 1⟩]⟩ ∧
+    (shift wrapWitness 1).toOption.map (·.intervals) = some (some [⟨1, 2, false, some [⟨.int 1, 1⟩]⟩]) ∧
+    ((shift wrapWitness 1).toOption.bind fun b => (shift b (-1)).toOption).map (·.intervals) =
+      some (some [⟨2, 3, false, some [⟨.int 1, 1⟩]⟩]) ∧
+    ((shift wrapWitness 1).toOption.bind fun b => (shift b (-1)).toOption) ≠ some wrapWitness := by
   decide
 
+/-- cover law of shift: when no interval wraps, every interval keeps its modifications and its flag, and position `i` of the
+rotated peptide is covered iff its source position `(i + k) mod n` was covered -/
+theorem shift_intervals_cover (a : Annotation) (k : Int) (hn : a.seq ≠ []) (hk : KeysOK a) (hwf : IntervalsOK a)
+    (hnw : NoWrap a k) (L : List Interval) (hL : a.intervals = some L) (hLne : L ≠ []) :
+    ∃ b, shift a k = .ok b ∧
+      b.intervals = some (L.map (shiftInterval (k % (a.seq.length : Int)) a.seq.length)) ∧
+      ∀ iv ∈ L,
+        (shiftInterval (k % (a.seq.length : Int)) a.seq.length iv).mods = iv.mods ∧
+        (shiftInterval (k % (a.seq.length : Int)) a.seq.length iv).ambiguous = iv.ambiguous ∧
+        ∀ i : Int, 0 ≤ i → i < (a.seq.length : Int) →
+          (covers (shiftInterval (k % (a.seq.length : Int)) a.seq.length iv) i ↔
+            covers iv ((i + k % (a.seq.length : Int)) % (a.seq.length : Int))) := by
+  obtain ⟨b, hb, _, _, hbiv, _⟩ := shift_spec a k hn hk
+  have hlen : 0 < a.seq.length := List.length_pos_iff.mpr hn
+  have he0 : 0 ≤ k % (a.seq.length : Int) := Int.emod_nonneg _ (by omega)
+  have he : k % (a.seq.length : Int) < a.seq.length := Int.emod_lt_of_pos _ (by omega)
+  refine ⟨b, hb, ?_, ?_⟩
+  · rw [hbiv, hL]
+    cases L with
+    | nil => exact absurd rfl hLne
+    | cons iv t => rfl
+  · intro iv hiv
+    have w := hwf L hL iv hiv
+    have nw := hnw L hL iv hiv
+    refine ⟨?_, ?_, fun i hi0 hi => shiftInterval_cover _ _ iv he0 he w nw i hi0 hi⟩
+    · rw [shiftInterval_nowrap _ _ iv he0 he w nw]
+    · rw [shiftInterval_nowrap _ _ iv he0 he w nw]
+example : (shift demo 3).toOption.map (·.intervals) =
+    some (some [⟨5, 7, false, some [⟨.int 1, 1⟩]⟩, ⟨0, 2, true, none⟩]) := by decide
 
 theorem split_concat (a : Annotation) : (split a).flatMap residues = residues a := by
   unfold split
